@@ -208,6 +208,20 @@ Section VisitorModel.
 
   Definition sys_init : sys := {| s_users := []; s_pxys := []; s_vm := []; s_nh := vnh_empty |}.
 
+  (* pkg/plugin/server/manager.go Manager.Login: for each Login plugin in order: Reject -> error;
+     Unchange -> the content goes on as it is; otherwise the returned content REPLACES it. The session is built from
+     what comes out (Service.handleConnection: m = &retContent.Login), so "the visitor's authenticated user" is the
+     user after the plugins have run. *)
+  Inductive plugin_ans := PReject | PUnchanged | PRewrite (user : bytes).
+
+  Fixpoint plugin_login (user : bytes) (answers : list plugin_ans) : option bytes :=
+    match answers with
+    | [] => Some user
+    | PReject :: _ => None
+    | PUnchanged :: r => plugin_login user r
+    | PRewrite u :: r => plugin_login u r
+    end.
+
   Inductive sop :=
   | SLogin (rid user : bytes)
   | SLogout (rid : bytes)
@@ -219,7 +233,10 @@ Section VisitorModel.
   | SVisitorConn (rid name : bytes) (ts : Z) (sign : bytes) (use_enc use_comp : bool) (cid : Z) (enc_ok : bool)
   | SNatHole (rid name : bytes) (ts : Z) (sign : bytes) (pre : bool) (sid : bytes) (delivered : bool)
   | SSessionEnd (sid : bytes)
-  | SAccept (name : bytes).
+  | SAccept (name : bytes)
+    (* a login that passes through the server's Login plugins first: the client claims [claimed]; each plugin in turn
+       rejects, leaves the content unchanged, or returns a content whose user replaces the current one *)
+  | SLoginVia (rid claimed : bytes) (answers : list plugin_ans).
 
   Inductive sout :=
   | ONone
@@ -227,6 +244,7 @@ Section VisitorModel.
   | ORegErrExists            (* "proxy [%s] already exists" *)
   | ORegErrInUse             (* pxyManager.Add: "proxy name [%s] is already in use"; the deferred pxy.Close() ran *)
   | ONoSession               (* message from a run id that has no session: cannot reach a handler *)
+  | OLoginRefused            (* a Login plugin rejected the login: no session *)
   | OVis (o : vm_out)
   | OVisErrNoControl         (* "no client control found for run id [%s]" *)
   | ONh (o : vnh_out)
@@ -290,12 +308,19 @@ Section VisitorModel.
           end
       end.
 
+  (* a login under a run id already in use replaces the old session, whose proxies are closed *)
+  Definition sys_login (s : sys) (rid user : bytes) : sys :=
+    let s1 := sys_logout s rid in
+    {| s_users := (rid, user) :: s_users s1; s_pxys := s_pxys s1; s_vm := s_vm s1; s_nh := s_nh s1 |}.
+
   Definition sys_step (s : sys) (op : sop) : sys * sout :=
     match op with
-    | SLogin rid user =>
-        (* a login under a run id already in use replaces the old session, whose proxies are closed *)
-        let s1 := sys_logout s rid in
-        ({| s_users := (rid, user) :: s_users s1; s_pxys := s_pxys s1; s_vm := s_vm s1; s_nh := s_nh s1 |}, ONone)
+    | SLogin rid user => (sys_login s rid user, ONone)
+    | SLoginVia rid claimed answers =>
+        match plugin_login claimed answers with
+        | Some user => (sys_login s rid user, ONone)
+        | None => (s, OLoginRefused)
+        end
     | SLogout rid => (sys_logout s rid, ONone)
     | SRegister rid k name sk allow =>
         match vget rid (s_users s) with
@@ -439,6 +464,11 @@ Definition spec_drop_owner (rid : bytes) (f : bytes -> option vreg) : bytes -> o
 Definition spec_step (sp : vspec) (op : sop) : vspec :=
   match op with
   | SLogin rid user => {| sp_user := vupd (sp_user sp) rid (Some user); sp_reg := spec_drop_owner rid (sp_reg sp) |}
+  | SLoginVia rid claimed answers =>
+      match plugin_login claimed answers with
+      | Some user => {| sp_user := vupd (sp_user sp) rid (Some user); sp_reg := spec_drop_owner rid (sp_reg sp) |}
+      | None => sp
+      end
   | SLogout rid => {| sp_user := vupd (sp_user sp) rid None; sp_reg := spec_drop_owner rid (sp_reg sp) |}
   | SRegister rid k name sk allow =>
       match sp_user sp rid, sp_reg sp name with
